@@ -197,14 +197,88 @@ def parse_tables(rd, strict=True):
     step(ignore_ids)
 
     def precedence():
-        m = one(r"let has_precedence = (.*?);", pse, "has_precedence")
-        hp = re.sub(r"\s+", "", m.group(1))
-        if hp == "!doc.attrs[existing_idx].important":
-            t['has_precedence'] = "negb existing_important"
-        else:
-            raise Missing("insert_attribute: has_precedence expression changed: %r" % m.group(1))
-        if "if has_precedence { doc.attrs.swap(existing_idx, last_idx); } doc.attrs.pop();" not in sw:
-            raise Missing("insert_attribute: swap/pop sequence changed")
+        # the whole body of the `insert_attribute` closure: head anchored, the fix-up block translated statement
+        # by statement into list operations (Gen/SvgInsert.v: insert_fixup)
+        m = one(r"let mut insert_attribute = \|aid, value: &str, important: bool\| \{(.*?)\};\s*let mut write_declaration", pse,
+                "insert_attribute closure")
+        body = re.sub(r"\s+", " ", m.group(1)).strip()
+        head = ("let idx = doc.attrs[attrs_start_idx..] .iter_mut() .position(|a| a.name == aid); "
+                "let added = append_attribute( parent_id, tag_name, aid, roxmltree::StringStorage::new_owned(value), important, doc, ); "
+                "if added { if let Some(idx) = idx { ")
+        if not body.startswith(head) or not body.endswith("} }"):
+            raise Missing("insert_attribute: the head of the closure (position / append_attribute / if added / if let Some(idx)) changed")
+        block = body[len(head):-3].strip()
+        lets = []
+        hp_expr = [None]
+
+        def bexpr(e):
+            """boolean expression over the existing attribute's flag -> (Gallina over `l`, Gallina over `existing_important`)"""
+            e = e.strip()
+            toks = re.findall(r"doc\.attrs\[existing_idx\]\.important|true|false|[!()]|\S+", e)
+            pos = [0]
+
+            def atom():
+                if pos[0] >= len(toks):
+                    raise Missing("insert_attribute: cannot parse has_precedence %r" % e)
+                tk = toks[pos[0]]
+                pos[0] += 1
+                if tk == '!':
+                    a, b = atom()
+                    return "(negb %s)" % a, "(negb %s)" % b
+                if tk == '(':
+                    a, b = atom()
+                    if pos[0] >= len(toks) or toks[pos[0]] != ')':
+                        raise Missing("insert_attribute: cannot parse has_precedence %r" % e)
+                    pos[0] += 1
+                    return a, b
+                if tk == 'doc.attrs[existing_idx].important':
+                    return "(attr_important l existing_idx)", "existing_important"
+                if tk in ('true', 'false'):
+                    return tk, tk
+                raise Missing("insert_attribute: has_precedence expression changed: %r" % e)
+            r = atom()
+            if pos[0] != len(toks):
+                raise Missing("insert_attribute: has_precedence expression changed: %r" % e)
+            return r
+        rest = block
+        while rest:
+            mm = re.match(r"let last_idx = doc\.attrs\.len\(\) - 1; ?", rest)
+            if mm:
+                lets.append("let last_idx := (length l - 1)%nat in")
+                rest = rest[mm.end():]
+                continue
+            mm = re.match(r"let existing_idx = attrs_start_idx \+ idx; ?", rest)
+            if mm:
+                lets.append("let existing_idx := idx in")          # `l` is the element's own slice of doc.attrs
+                rest = rest[mm.end():]
+                continue
+            mm = re.match(r"let has_precedence = ([^;]*); ?", rest)
+            if mm:
+                a, b = bexpr(mm.group(1))
+                hp_expr[0] = b
+                lets.append("let has_precedence := %s in" % a)
+                rest = rest[mm.end():]
+                continue
+            mm = re.match(r"if has_precedence \{ doc\.attrs\.swap\((existing_idx|last_idx), (existing_idx|last_idx)\); \} ?", rest)
+            if mm:
+                lets.append("let l := if has_precedence then swap_nth %s %s l else l in" % (mm.group(1), mm.group(2)))
+                rest = rest[mm.end():]
+                continue
+            mm = re.match(r"doc\.attrs\.swap\((existing_idx|last_idx), (existing_idx|last_idx)\); ?", rest)
+            if mm:
+                lets.append("let l := swap_nth %s %s l in" % (mm.group(1), mm.group(2)))
+                rest = rest[mm.end():]
+                continue
+            mm = re.match(r"doc\.attrs\.pop\(\); ?", rest)
+            if mm:
+                lets.append("let l := removelast l in")
+                rest = rest[mm.end():]
+                continue
+            raise Missing("insert_attribute: statement outside the translated subset (swap/pop sequence changed): %r" % rest[:70])
+        if hp_expr[0] is None:
+            raise Missing("insert_attribute: has_precedence is no longer computed")
+        t['has_precedence'] = hp_expr[0]
+        t['insert_fixup'] = lets
     step(precedence)
 
     def marker():
@@ -327,7 +401,7 @@ def render(t, header):
     o.append("Definition is_dropped_on (t : EId) (a : AId) : bool := EId_eqb t E_%s && AId_eqb a A_%s.\n" % t['dropped_on'])
     o.append('Definition inherit_keyword : string := "%s".\n' % t['inherit_keyword'])
     o.append("Definition marker_shorthand : list AId := [%s].\n" % "; ".join("A_" + a for a in t['marker_shorthand']))
-    o.append("(* insert_attribute: `let has_precedence = !doc.attrs[existing_idx].important;` *)")
+    o.append("(* insert_attribute: the `has_precedence` expression as a function of the existing attribute's flag *)")
     o.append("Definition new_has_precedence (existing_important : bool) : bool := %s.\n" % t['has_precedence'])
     o.append("(* svgtree/parse.rs: resolve_inherit fallback table *)")
     o.append("Definition inherit_default (x : AId) : option string :=\n  match x with\n%s\n  | _ => None\n  end.\n" % "\n".join(
@@ -342,9 +416,18 @@ def render(t, header):
     return "\n".join(o) + "\n"
 
 
+def render_insert(t, header):
+    o = [header, "From RV Require Import Model.Base Gen.SvgTables Model.CascadeBase.\n",
+         "(* svgtree/parse.rs parse_svg_element, closure `insert_attribute`, the block under `if added { if let Some(idx) = idx {`:",
+         "   `l` is the element's slice of doc.attrs after the new attribute was appended, `idx` the position of the existing",
+         "   attribute of the same name inside that slice. *)",
+         "Definition insert_fixup (l : list attr) (idx : nat) : list attr :=\n  %s\n  l.\n" % "\n  ".join(t['insert_fixup'])]
+    return "\n".join(o)
+
+
 NEEDED = ('is_presentation', 'allows_inherit_value', 'is_non_inheritable', 'style_only', 'css_only_value_attr',
           'css_only_values', 'ignored_id_attr', 'dropped', 'dropped_on', 'inherit_keyword', 'marker_shorthand',
-          'has_precedence', 'inherit_default')
+          'has_precedence', 'insert_fixup', 'inherit_default')
 
 
 def generate(api):
@@ -360,6 +443,7 @@ def generate(api):
     fs_ok = all(u in t.get('fs', {}) for u in UNIT_ORDER + ['Em', 'Ex', 'Percent'])
     if all(k in t for k in NEEDED) and fs_ok:
         api.write_gen('SvgTables.v', render(t, api.HEADER))
+        api.write_gen('SvgInsert.v', render_insert(t, api.HEADER))
         if not t['errors']:
             api.ok('tables', 'SvgTables', props=PROPS, aids=len(t['aids']), eids=len(t['eids']),
                    presentation=len(t['is_presentation']), defaults=len(t['inherit_default']))
